@@ -36,6 +36,7 @@ CLONE_CALLS = {
     "in-while": (["while go {", "    out.push(name.clone());", "}"], 1, "clone-in-loop", "detect_clone_in_loop"),
     "in-loop": (["loop {", "    out.push(name.clone());", "    break;", "}"], 1, "clone-in-loop", "detect_clone_in_loop"),
     "chain": (["let c = name.clone().clone();", "consume(c);", "consume(name);"], 0, "clone-chain", "detect_clone_chain"),
+    "chain-parenthesised": (["let c = (name.clone()).clone();", "consume(c);", "consume(name);"], 0, "clone-chain", "detect_clone_chain"),
     "let-unused-after": (["let copy = name.clone();", "consume(copy);"], 0, "unnecessary-clone", "detect_unnecessary_clone"),
     # one call that matches two patterns: the switches are independent, the higher-priority enabled one names it
     "let-unused-after-in-loop": (["for _i in 0..3 {", "    let copy = name.clone();", "    consume(copy);", "}"], 1, "BOTH:clone-in-loop|unnecessary-clone", None),
@@ -217,7 +218,8 @@ def h_context_kinds(ctx, part="test", depth=3):
     kinds = [SKind(ctx, f"ancestor{i}_kind", table) for i in range(depth)]
     has_attr = [ctx.flag(f"ancestor{i}_has_preceding_sibling") if part == "test" else False for i in range(depth)]
     attr_kinds = [SKind(ctx, f"sibling{i}_kind", table) if has_attr[i] else None for i in range(depth)]
-    attr_texts = [ctx.pick(f"sibling{i}_text", ATTR_TEXTS) if has_attr[i] else None for i in range(depth)]
+    # the outermost of three ancestors takes the test-marking texts and two plain ones (cost)
+    attr_texts = [ctx.pick(f"sibling{i}_text", ATTR_TEXTS if i < 2 else ATTR_TEXTS[:4] + ATTR_TEXTS[-1:]) if has_attr[i] else None for i in range(depth)]
     call = Duck("call_expression", "x.clone()", start=(9, 8))
     below, below_sibs = call, []
     for i in range(depth + 1):      # ancestor0 is the innermost; the extra round builds the file root
@@ -289,6 +291,6 @@ def obligations(tier):
            functions=["rust_context.is_inside_test/_is_test_context/has_test_attribute/has_cfg_test_attribute"],
            bounds=("2" if tier == "quick" else "3") + " ancestors whose kinds (and the kinds of their preceding siblings) are solver variables over all 355 kinds of the Rust grammar (symbolic to the end); "
                   "forked: presence of a preceding sibling and its text from 6 attribute spellings",
-           timeout=300 if tier == "quick" else 1200, workers=14, must_cover=("in-test", "not-in-test"),
+           timeout=300 if tier == "quick" else 1500, workers=14, must_cover=("in-test", "not-in-test"), max_paths=400000 if tier == "quick" else 1500000,
            stubs=("duck-typed tree-sitter nodes", "SymSet wrappers around the kind tables of rust_context")),
     ]
